@@ -81,9 +81,14 @@ pub fn crypto_secretbox_open_detached(
     nonce: &Nonce,
     key: &Key,
 ) -> Result<(), Error> {
-    let c_len = ciphertext.len();
-    message[..c_len].copy_from_slice(ciphertext);
-    crypto_secretbox_open_detached_inplace(message, mac, nonce, key)
+    use salsa20::cipher::StreamCipher;
+
+    let message = &mut message[..ciphertext.len()];
+    let mut cipher = crypto_secretbox_open_verify(ciphertext, mac, nonce, key)?;
+    message.copy_from_slice(ciphertext);
+    cipher.apply_keystream(message);
+
+    Ok(())
 }
 
 /// Encrypts `message` with `nonce` and `key`.
